@@ -10,11 +10,17 @@ of a direct call of the real function.  Trusted glue.
                                          -> ok <cnt> <rows…> | err <e>          (`_process_subsys_index`)
   sel chk <array> <n> <m> <sq> <sy>      array = M F|I p q v… (as in `mateqn` lines)
                                          -> ok | err <e>                          (`_check_shape`)
+  sel cca <kind> <shape> <data> <legal…> <sq> <tr>
+                                         kind = i | f | c | o; shape, data = count-prefixed lists of
+                                         naturals / integers; legal = count, then count-prefixed lists
+                                         of `any` | <n>; sq, tr = 0 | 1
+                                         -> ok <kind> <shape> <data> | err <e>   (`_check_convert_array`)
 -/
 import CtrlVerif.Driver.Util
 import CtrlVerif.Model.DtPred
 import CtrlVerif.Model.Index
 import CtrlVerif.Driver.MatEqn
+import CtrlVerif.Model.CheckConvert
 
 namespace CtrlVerif.Driver.Select
 
@@ -99,8 +105,36 @@ def chk : P String := do
   | .ok _ => pure "ok"
   | .error e => pure (showErr e)
 
+def pKind : P PyCCA.Kind := do
+  let t ← tok
+  match t with
+  | "i" => pure .i | "f" => pure .f | "c" => pure .c | "o" => pure .other
+  | _ => throw s!"kind:{t}"
+
+def pDim : P PyCCA.Dim := do
+  match ← peek? with
+  | some "any" => let _ ← tok; pure .any
+  | _ => let n ← pNat; pure (.n n)
+
+def showKind : PyCCA.Kind → String
+  | .i => "i" | .f => "f" | .c => "c" | .other => "o"
+
+def cca : P String := do
+  let k ← pKind
+  let shape ← pList pNat
+  let data ← pList pInt
+  let legal ← pList (pList pDim)
+  let sq ← pBool
+  let tr ← pBool
+  match CheckConvert.checkConvert (⟨shape, data, k⟩ : PyCCA.Arr Int) legal sq tr with
+  | .ok r => pure ("ok " ++ showKind r.kind ++ " " ++ toString r.shape.length
+      ++ String.join (r.shape.map fun d => " " ++ toString d) ++ " " ++ toString r.data.length
+      ++ String.join (r.data.map fun d => " " ++ toString d))
+  | .error e => pure (showErr e)
+
 def handle (toks : List String) : String :=
   match toks with
+  | "cca" :: rest => runLine cca rest
   | "chk" :: rest => runLine chk rest
   | "dtpred" :: rest => runLine dtpred rest
   | "subsys" :: rest => runLine subsys rest
